@@ -17,6 +17,7 @@
 #include <iostream>
 #include <thread>
 #include <atomic>
+#include <unistd.h>
 
 #define private public
 #define protected public
@@ -24,6 +25,7 @@
 #include "util/ObjectPool.h"
 #undef private
 #undef protected
+#include "sched/sched.h"
 
 using namespace muscle;
 
@@ -235,11 +237,15 @@ struct Ideal
    }
 };
 
+static bool g_sched = false;   // scheduled multi-threaded mode: the ideal graph follows the real guards (it is only compared at the end)
+
 struct Ctx
 {
    std::vector<ItemRef> stk;
    PoolI * pool;
-   Ideal ideal;
+   Ideal * ideal;    // shared by all threads of a case; this thread's slots are ideal->stk[base .. base+stk.size())
+   int base;
+   Ctx() : pool(NULL), ideal(NULL), base(0) {}
 };
 
 // resolve a location for reading; a member slot is reached only through a counting reference
@@ -263,21 +269,21 @@ static ItemRef * res_w(Ctx & c, const Loc & l, const Item * v)
    return &q->_m[l.j];
 }
 // the same two on the ideal graph
-static IRef * ires_r(Ideal & d, const Loc & l)
+static IRef * ires_r(Ideal & d, const Loc & l, int base, int S)
 {
-   if ((l.i < 0)||(l.i >= (int)d.stk.size())) return NULL;
-   if (!l.mem) return &d.stk[l.i];
-   const int q = d.stk[l.i].c ? d.stk[l.i].id : -1;
+   if ((l.i < 0)||(l.i >= S)) return NULL;
+   if (!l.mem) return &d.stk[base+l.i];
+   const int q = d.stk[base+l.i].c ? d.stk[base+l.i].id : -1;
    if ((q < 0)||(l.j < 0)||(l.j >= K)) return NULL;
    return &d.mem[q][l.j];
 }
-static IRef * ires_w(Ideal & d, const Loc & l, int v)
+static IRef * ires_w(Ideal & d, const Loc & l, int v, int base, int S, bool realok)
 {
-   if ((l.i < 0)||(l.i >= (int)d.stk.size())) return NULL;
-   if (!l.mem) return &d.stk[l.i];
-   const int q = d.stk[l.i].c ? d.stk[l.i].id : -1;
+   if ((l.i < 0)||(l.i >= S)) return NULL;
+   if (!l.mem) return &d.stk[base+l.i];
+   const int q = d.stk[base+l.i].c ? d.stk[base+l.i].id : -1;
    if ((q < 0)||(l.j < 0)||(l.j >= K)) return NULL;
-   if (d.count(q) != 1) return NULL;
+   if (g_sched ? (!realok) : (d.count(q) != 1)) return NULL;
    if (v == q) return NULL;
    return &d.mem[q][l.j];
 }
@@ -295,14 +301,16 @@ static std::string refs(const ItemRef & r)
 }
 static bool same(const ItemRef & r, const IRef & i) {return (r() == NULL) ? (i.id < 0) : ((id_of(r()) == i.id)&&(r.IsRefCounting() == i.c));}
 
-static void dump(std::ostringstream & o, Ctx & c, std::ostringstream & orc, int k, size_t opn)
+static void dump(std::ostringstream & o, std::vector<Ctx *> & cs, std::ostringstream & orc, int k, size_t opn)
 {
    char b[32];
+   PoolI * pool = cs[0]->pool;
+   Ideal & ideal = *cs[0]->ideal;
    std::vector<SlabDump> slabs; std::string why;
-   const bool lok = c.pool->Slabs(slabs, why);
+   const bool lok = pool->Slabs(slabs, why);
    if (!lok) orc << k << " ORACLE FAIL pool bookkeeping: " << why << " after op#" << opn << "\n";
    std::set<int> freeids; int totfree = 0;
-   const int N = c.pool->N();
+   const int N = pool->N();
    for (size_t s=0; s<slabs.size(); s++)
    {
       for (size_t f=0; f<slabs[s].freel.size(); f++) if (slabs[s].base >= 0) freeids.insert(slabs[s].base+slabs[s].freel[f]);
@@ -310,20 +318,20 @@ static void dump(std::ostringstream & o, Ctx & c, std::ostringstream & orc, int 
       if (slabs[s].cyc) orc << k << " ORACLE FAIL pool bookkeeping: free list longer than the slab (cycle) after op#" << opn << "\n";
       if ((int)slabs[s].freel.size() + slabs[s].inuse != N) orc << k << " ORACLE FAIL pool bookkeeping: free-list length + nodes-in-use != slab size after op#" << opn << "\n";
    }
-   if (lok && ((unsigned) totfree != c.pool->Cur())) orc << k << " ORACLE FAIL pool bookkeeping: _curPoolSize " << c.pool->Cur() << " != free nodes " << totfree << " after op#" << opn << "\n";
+   if (lok && ((unsigned) totfree != pool->Cur())) orc << k << " ORACLE FAIL pool bookkeeping: _curPoolSize " << pool->Cur() << " != free nodes " << totfree << " after op#" << opn << "\n";
 
    int dead = 0;
    for (size_t id=0; id<g_objs.size(); id++)
    {
       const Info & inf = g_objs[id];
-      if (inf.dead) {dead++; if (c.ideal.mem.count((int)id)) orc << k << " ORACLE FAIL object " << id << " destroyed while counting references to it exist (op#" << opn << ")\n"; continue;}
+      if (inf.dead) {dead++; if (ideal.mem.count((int)id)) orc << k << " ORACLE FAIL object " << id << " destroyed while counting references to it exist (op#" << opn << ")\n"; continue;}
       const Item * it = inf.addr;
       const bool isfree = inf.pooled && (freeids.count((int)id) > 0);
       o << id << (isfree ? "P" : "L") << it->GetRefCount() << "." << it->_val << "[";
       for (int j=0; j<K; j++) {if (j) o << ","; o << refs(it->_m[j]);}
       o << "]b" << inf.births << "d" << inf.deaths << " ";
       // ---- the property, on this object
-      const bool ilive = (c.ideal.mem.count((int)id) > 0);
+      const bool ilive = (ideal.mem.count((int)id) > 0);
       if (isfree)
       {
          if (ilive) orc << k << " ORACLE FAIL object " << id << " returned to its pool while counting references to it exist (op#" << opn << ")\n";
@@ -334,24 +342,30 @@ static void dump(std::ostringstream & o, Ctx & c, std::ostringstream & orc, int 
       else
       {
          if (!ilive) orc << k << " ORACLE FAIL object " << id << " not released although no counting reference to it is left (op#" << opn << ")\n";
-         else if ((int) it->GetRefCount() != c.ideal.count((int)id)) orc << k << " ORACLE FAIL object " << id << " count " << it->GetRefCount() << " != number of counting references " << c.ideal.count((int)id) << " (op#" << opn << ")\n";
+         else if ((int) it->GetRefCount() != ideal.count((int)id)) orc << k << " ORACLE FAIL object " << id << " count " << it->GetRefCount() << " != number of counting references " << ideal.count((int)id) << " (op#" << opn << ")\n";
          if (inf.births != inf.deaths+1) orc << k << " ORACLE FAIL object " << id << " released " << inf.deaths << " times for " << inf.births << " obtains while in use (op#" << opn << ")\n";
          if (ilive)
          {
-            const std::vector<IRef> & im = c.ideal.mem[(int)id];
+            const std::vector<IRef> & im = ideal.mem[(int)id];
             for (int j=0; j<K; j++) if (!same(it->_m[j], im[j])) orc << k << " ORACLE FAIL object " << id << " member " << j << " differs from the ideal graph (op#" << opn << ")\n";
-            if (it->_val != c.ideal.val[(int)id]) orc << k << " ORACLE FAIL object " << id << " payload differs (op#" << opn << ")\n";
+            if (it->_val != ideal.val[(int)id]) orc << k << " ORACLE FAIL object " << id << " payload differs (op#" << opn << ")\n";
          }
       }
    }
-   o << "#" << dead << " (";
-   for (size_t i=0; i<c.stk.size(); i++)
+   o << "#" << dead << " ";
+   for (size_t t=0; t<cs.size(); t++)
    {
-      if (i) o << ",";
-      o << refs(c.stk[i]);
-      if (!same(c.stk[i], c.ideal.stk[i])) orc << k << " ORACLE FAIL stack slot " << i << " differs from the ideal graph (op#" << opn << ")\n";
+      Ctx & c = *cs[t];
+      o << "(";
+      for (size_t i=0; i<c.stk.size(); i++)
+      {
+         if (i) o << ",";
+         o << refs(c.stk[i]);
+         if (!same(c.stk[i], ideal.stk[c.base+i])) orc << k << " ORACLE FAIL stack slot " << i << " of thread " << t << " differs from the ideal graph (op#" << opn << ")\n";
+      }
+      o << ")";
    }
-   o << ") " << c.pool->Cur() << "/" << c.pool->Max() << "/" << g_nextsid << "{";
+   o << " " << pool->Cur() << "/" << pool->Max() << "/" << g_nextsid << "{";
    for (size_t s=0; s<slabs.size(); s++)
    {
       const SlabDump & d = slabs[s];
@@ -366,22 +380,26 @@ static void dump(std::ostringstream & o, Ctx & c, std::ostringstream & orc, int 
 
 static void set_new(Ctx & c, int i, Item * it, int id)
 {
+   // the ideal graph first: in scheduled mode the SetRef below may be preempted
+   c.ideal->stk[c.base+i] = IRef(id, true);
+   c.ideal->mem[id] = std::vector<IRef>(K);
+   c.ideal->val[id] = 0;
+   c.ideal->orphans.erase(id);
+   c.ideal->collect();
    c.stk[i].SetRef(it);
-   c.ideal.stk[i] = IRef(id, true);
-   c.ideal.mem[id] = std::vector<IRef>(K);
-   c.ideal.val[id] = 0;
 }
 
-// executes one op; returns "ok"/"skip"
+// executes one op; returns "ok"/"skip".  ev receives the obtain events (destruction events go to g_ev)
 static const char * do_op(Ctx & c, const std::string & opstr, std::ostringstream & orc, int k, size_t opn)
 {
    std::vector<std::string> a = split(opstr, ':');
    const std::string & o = a[0];
-   Ideal & d = c.ideal;
+   Ideal & d = *c.ideal;
+   const int base = c.base, S = (int) c.stk.size();
    if ((o == "nh")||(o == "np"))
    {
       const int i = atoi(a[1].c_str());
-      if ((i < 0)||(i >= (int)c.stk.size())) return "skip";
+      if ((i < 0)||(i >= S)) return "skip";
       if (o == "nh")
       {
          Item * it = new Item;
@@ -398,17 +416,17 @@ static const char * do_op(Ctx & c, const std::string & opstr, std::ostringstream
          if (d.mem.count(id)) orc << k << " ORACLE FAIL ObtainObject returned object " << id << " which is still in use (op#" << opn << ")\n";
          if ((it->GetRefCount() != 0)||(it->_val != 0)||(!members_null(it))) orc << k << " ORACLE FAIL obtained object " << id << " is not in the freshly-constructed state (op#" << opn << ")\n";
          g_objs[id].births++;
-         (*g_ev) << "O" << id << (nw ? "+" : "") << " ";
+         if (g_ev) (*g_ev) << "O" << id << (nw ? "+" : "") << " ";
          set_new(c, i, it, id);
       }
    }
    else if ((o == "as")||(o == "cc")||(o == "al"))
    {
       const Loc ld = parse_loc(a[1]), ls = parse_loc(a[2]);
-      ItemRef * ps = res_r(c, ls);       IRef * ips = ires_r(d, ls);
+      ItemRef * ps = res_r(c, ls);       IRef * ips = ires_r(d, ls, base, S);
       if ((ps != NULL) != (ips != NULL)) orc << k << " ORACLE FAIL resolution differs from the ideal graph (op#" << opn << ")\n";
       ItemRef * pd = ps ? res_w(c, ld, (*ps)()) : NULL;
-      IRef * ipd = ips ? ires_w(d, ld, ips->id) : NULL;
+      IRef * ipd = ips ? ires_w(d, ld, ips->id, base, S, (pd != NULL)) : NULL;
       if ((pd != NULL) != (ipd != NULL)) orc << k << " ORACLE FAIL IsRefPrivate()/resolution differs from the ideal graph (op#" << opn << ")\n";
       if ((ps == NULL)||(pd == NULL)) return "skip";
       if (ipd)
@@ -418,6 +436,7 @@ static const char * do_op(Ctx & c, const std::string & opstr, std::ostringstream
          *ipd = nv;
          // stop-counting conversion on the same item: by contract the object is not released even at count zero
          if ((o != "cc")&&(before.id >= 0)&&(before.id == nv.id)&&(before.c)&&(!nv.c)&&(d.count(nv.id) == 0)) d.orphans.insert(nv.id);
+         d.collect();
       }
       if (o == "as") *pd = *ps;
       else if (o == "al") pd->SetRef((*ps)(), false);
@@ -426,40 +445,75 @@ static const char * do_op(Ctx & c, const std::string & opstr, std::ostringstream
    else if (o == "rs")
    {
       const Loc l = parse_loc(a[1]);
-      ItemRef * pd = res_w(c, l, NULL);  IRef * ipd = ires_w(d, l, -1);
+      ItemRef * pd = res_w(c, l, NULL);  IRef * ipd = ires_w(d, l, -1, base, S, (pd != NULL));
       if ((pd != NULL) != (ipd != NULL)) orc << k << " ORACLE FAIL IsRefPrivate()/resolution differs from the ideal graph (op#" << opn << ")\n";
       if (pd == NULL) return "skip";
-      if (ipd) *ipd = IRef();
+      if (ipd) {*ipd = IRef(); d.collect();}
       pd->Reset();
    }
    else if (o == "sw")
    {
       const Loc la = parse_loc(a[1]), lb = parse_loc(a[2]);
       ItemRef * ra = res_r(c, la);  ItemRef * rb = res_r(c, lb);
-      IRef * ira = ires_r(d, la);   IRef * irb = ires_r(d, lb);
+      IRef * ira = ires_r(d, la, base, S);   IRef * irb = ires_r(d, lb, base, S);
       if ((ra == NULL)||(rb == NULL)) return "skip";
       ItemRef * wa = res_w(c, la, (*rb)()); ItemRef * wb = res_w(c, lb, (*ra)());
-      IRef * iwa = (ira && irb) ? ires_w(d, la, irb->id) : NULL; IRef * iwb = (ira && irb) ? ires_w(d, lb, ira->id) : NULL;
-      if (((wa != NULL)&&(wb != NULL)) != ((iwa != NULL)&&(iwb != NULL))) orc << k << " ORACLE FAIL IsRefPrivate()/resolution differs from the ideal graph (op#" << opn << ")\n";
-      if ((wa == NULL)||(wb == NULL)) return "skip";
+      const bool rok = (wa != NULL)&&(wb != NULL);
+      IRef * iwa = (ira && irb) ? ires_w(d, la, irb->id, base, S, rok) : NULL; IRef * iwb = (ira && irb) ? ires_w(d, lb, ira->id, base, S, rok) : NULL;
+      if (rok != ((iwa != NULL)&&(iwb != NULL))) orc << k << " ORACLE FAIL IsRefPrivate()/resolution differs from the ideal graph (op#" << opn << ")\n";
+      if (!rok) return "skip";
       if (wa != wb)
       {
-         wa->SwapContents(*wb);
          if (iwa && iwb) {const IRef t = *iwa; *iwa = *iwb; *iwb = t;}
+         wa->SwapContents(*wb);
       }
    }
    else if (o == "sv")
    {
       const int i = atoi(a[1].c_str()), v = atoi(a[2].c_str());
-      if ((i < 0)||(i >= (int)c.stk.size())) return "skip";
+      if ((i < 0)||(i >= S)) return "skip";
       Item * q = c.stk[i].IsRefCounting() ? c.stk[i]() : NULL;
       if ((q == NULL)||(!c.stk[i].IsRefPrivate())) return "skip";
       q->_val = v;
-      if (d.stk[i].id >= 0) d.val[d.stk[i].id] = v;
+      if (d.stk[base+i].id >= 0) d.val[d.stk[base+i].id] = v;
    }
    else if (o == "dr") c.pool->Drain();
    else {fprintf(stderr, "bad op [%s]\n", opstr.c_str()); exit(2);}
    return "ok";
+}
+
+// drops every reference at the end of a case and checks that everything was released exactly once
+static void finish_case(std::vector<Ctx *> & cs, std::ostringstream & orc, int k)
+{
+   Ideal & ideal = *cs[0]->ideal;
+   PoolI * pool = cs[0]->pool;
+   if (orc.str().empty())
+   {
+      while(!ideal.orphans.empty())   // adopt the objects orphaned by stop-counting conversions
+      {
+         const int id = *ideal.orphans.begin();
+         ideal.orphans.erase(ideal.orphans.begin());
+         {ItemRef adopt(const_cast<Item *>(g_objs[id].addr));}
+      }
+      for (size_t t=0; t<cs.size(); t++) for (size_t i=0; i<cs[t]->stk.size(); i++) cs[t]->stk[i].Reset();
+      for (size_t id=0; id<g_objs.size(); id++)
+         if ((!g_objs[id].pooled)&&(!g_objs[id].dead)) orc << k << " ORACLE FAIL heap object " << id << " never destroyed after its last counting reference went away\n";
+      if (pool->AnyInUse()) orc << k << " ORACLE FAIL pooled object still in use after the last counting reference went away\n";
+      pool->Sanity();
+   }
+   if (orc.str().empty()) {for (size_t t=0; t<cs.size(); t++) cs[t]->stk.clear(); delete pool;}   // ~ObjectPool MCRASHes if a slab is in use
+   else {for (size_t t=0; t<cs.size(); t++) for (size_t i=0; i<cs[t]->stk.size(); i++) cs[t]->stk[i].Neutralize();}   // after a failure: leak rather than crash
+}
+
+static void print_case(int k, const std::ostringstream & o, const std::ostringstream & orc)
+{
+   printf("%d %s\n", k, o.str().c_str());
+   if (!orc.str().empty())
+   {
+      const std::string s = orc.str();   // first oracle line only (the rest are consequences)
+      fputs(s.substr(0, s.find('\n')+1).c_str(), stdout);
+   }
+   fflush(stdout);
 }
 
 static void run_single(int k, const std::string & hdr, const std::string & body)
@@ -467,12 +521,14 @@ static void run_single(int k, const std::string & hdr, const std::string & body)
    std::vector<std::string> h = split(hdr, ':');
    const int N = atoi(h[0].c_str()), mx = atoi(h[1].c_str()), S = atoi(h[2].c_str());
    std::ostringstream o, orc;
-   g_objs.clear(); g_addr2id.clear(); g_slab2sid.clear(); g_nextsid = 0;
+   g_objs.clear(); g_addr2id.clear(); g_slab2sid.clear(); g_nextsid = 0; g_sched = false;
    {
-      Ctx c;
+      Ideal ideal; Ctx c;
       c.pool = make_pool(N, (uint32) mx);
       c.stk.resize(S);
-      c.ideal.stk.assign(S, IRef());
+      c.ideal = &ideal; c.base = 0;
+      ideal.stk.assign(S, IRef());
+      std::vector<Ctx *> cs(1, &c);
       std::vector<std::string> ops = split(body, ';');
       size_t opn = 0;
       for (size_t n=0; n<ops.size(); n++)
@@ -482,41 +538,17 @@ static void run_single(int k, const std::string & hdr, const std::string & body)
          g_ev = &ev;
          const char * r = do_op(c, ops[n], orc, k, opn);
          g_ev = NULL;
-         c.ideal.collect();
+         ideal.collect();
          o << r << " " << ev.str() << "| ";
-         dump(o, c, orc, k, opn);
+         dump(o, cs, orc, k, opn);
          o << ";";
          c.pool->Sanity();   // ObjectPool::PerformSanityCheck(): MCRASHes on inconsistency
          opn++;
          if (!orc.str().empty()) break;
       }
-      // end of case: drop every reference (adopting the objects orphaned by stop-counting conversions first);
-      // everything must then have been released exactly once
-      if (orc.str().empty())
-      {
-         while(!c.ideal.orphans.empty())
-         {
-            const int id = *c.ideal.orphans.begin();
-            c.ideal.orphans.erase(c.ideal.orphans.begin());
-            {ItemRef adopt(const_cast<Item *>(g_objs[id].addr));}
-         }
-         for (size_t i=0; i<c.stk.size(); i++) c.stk[i].Reset();
-         for (size_t id=0; id<g_objs.size(); id++)
-            if ((!g_objs[id].pooled)&&(!g_objs[id].dead)) orc << k << " ORACLE FAIL heap object " << id << " never destroyed after its last counting reference went away\n";
-         if (c.pool->AnyInUse()) orc << k << " ORACLE FAIL pooled object still in use after the last counting reference went away\n";
-         c.pool->Sanity();
-      }
-      if (orc.str().empty()) {c.stk.clear(); delete c.pool;}   // ~ObjectPool MCRASHes if a slab is in use
-      else {for (size_t i=0; i<c.stk.size(); i++) c.stk[i].Neutralize();}   // after a failure: leak rather than crash
+      finish_case(cs, orc, k);
    }
-   printf("%d %s\n", k, o.str().c_str());
-   if (!orc.str().empty())
-   {
-      // first oracle line only (the rest are consequences)
-      const std::string s = orc.str();
-      fputs(s.substr(0, s.find('\n')+1).c_str(), stdout);
-   }
-   fflush(stdout);
+   print_case(k, o, orc);
 }
 
 // ------------------------------------------------------------------ free-running multi-threaded stress
@@ -613,6 +645,117 @@ static void run_stress(int k, const std::string & hdr, const std::string & body)
    fflush(stdout);
 }
 
+// ------------------------------------------------------------------ multi-threaded histories under the controlled scheduler
+// "S<N>:<max>:<S>:<t.t.t...>|setup/teardown/prog1/prog2/..."
+// The main thread runs <setup> on its own stack; every worker starts with a copy of that stack (made before it
+// starts) and runs its program under the scheduler, whose decision points are the atomic increments / decrements
+// (system/AtomicCounter.h hooks) and the pool's Mutex::Lock (system/Mutex.h hook).  The dotted list is the explicit
+// schedule (worker ids; entries naming a finished worker are skipped; beyond its end: non-preemptive).  Afterwards the
+// main thread runs <teardown>.  Printed: for every decision the worker resumed and the atomic step it then
+// executed (I<obj> / D<obj> / L = pool critical section / - = none), then the complete final dump.
+struct SchedEv {int tid; int kind; int id;};
+
+static int counter_owner(const void * p)
+{
+   for (size_t id=0; id<g_objs.size(); id++)
+      if ((!g_objs[id].dead)&&((const void *) &g_objs[id].addr->_refCount == p)) return (int) id;
+   return -2;
+}
+
+static void run_scheduled(int k, const std::string & hdr, const std::string & body)
+{
+   std::vector<std::string> h = split(hdr.substr(1), ':');
+   const int N = atoi(h[0].c_str()), mx = atoi(h[1].c_str()), S = atoi(h[2].c_str());
+   std::vector<std::string> progs = split(body, '/');
+   while(progs.size() < 2) progs.push_back("");
+   const size_t T = progs.size()-2;
+   std::ostringstream o, orc;
+   g_objs.clear(); g_addr2id.clear(); g_slab2sid.clear(); g_nextsid = 0; g_sched = true;
+   std::ostringstream evsink;   // destruction/recycle events are not compared in this mode (their order is implied by the trace)
+   {
+      Ideal ideal;
+      std::vector<Ctx> ctx(T+1);
+      PoolI * pool = make_pool(N, (uint32) mx);
+      ideal.stk.assign((T+1)*S, IRef());
+      for (size_t t=0; t<=T; t++) {ctx[t].pool = pool; ctx[t].ideal = &ideal; ctx[t].base = (int)(t*S); ctx[t].stk.resize(S);}
+      std::vector<Ctx *> cs; for (size_t t=0; t<=T; t++) cs.push_back(&ctx[t]);
+      g_ev = &evsink;
+      // setup, single-threaded
+      {
+         std::vector<std::string> ops = split(progs[0], ';');
+         for (size_t n=0; n<ops.size(); n++) if (!ops[n].empty()) (void) do_op(ctx[0], ops[n], orc, k, n);
+      }
+      // thread creation: each worker gets a copy of the main stack
+      for (size_t t=1; t<=T; t++)
+         for (int i=0; i<S; i++) {ctx[t].stk[i] = ctx[0].stk[i]; ideal.stk[ctx[t].base+i] = ideal.stk[i];}
+      ideal.collect();
+
+      if (T > 0)
+      {
+         vsched::Options so;
+         so.policy = vsched::Options::NONPREEMPTIVE;
+         so.tolerant_schedule = true;
+         if (h.size() > 3) {std::string sc = h[3]; for (size_t i=0; i<sc.size(); i++) if (sc[i] == '.') sc[i] = ','; if (!sc.empty()) (void) vsched::ParseSchedule(sc, so.schedule);}
+         so.decide_kinds = vsched::KindBit(vsched::K_MUTEX_LOCK) | vsched::KindBit(vsched::K_ATOMIC_INC) | vsched::KindBit(vsched::K_ATOMIC_DEC);
+         so.log_kinds    = so.decide_kinds;
+         std::vector<SchedEv> evs;
+         so.on_event = [&evs](const vsched::Event & e) {
+            SchedEv se; se.tid = e.tid; se.kind = e.kind;
+            se.id = ((e.kind == vsched::K_ATOMIC_INC)||(e.kind == vsched::K_ATOMIC_DEC)) ? counter_owner(e.ptr) : -1;
+            evs.push_back(se);
+         };
+         vsched::Scheduler sc(so);
+         std::vector<std::vector<std::string> > tops(T+1);
+         for (size_t t=1; t<=T; t++) tops[t] = split(progs[t+1], ';');
+         std::ostringstream * porc = &orc;
+         for (size_t t=1; t<=T; t++)
+         {
+            Ctx * c = &ctx[t]; const std::vector<std::string> * ops = &tops[t];
+            sc.Spawn([c, ops, porc, k]() {for (size_t n=0; n<ops->size(); n++) if (!(*ops)[n].empty()) (void) do_op(*c, (*ops)[n], *porc, k, 1000+n);});
+         }
+         vsched::Result r = sc.Run();
+         if (r.status != vsched::Result::COMPLETED)
+         {
+            printf("%d sched %s\n", k, r.StatusName());
+            printf("%d ORACLE FAIL controlled run did not complete: %s %s\n", k, r.StatusName(), r.detail.c_str());
+            fflush(stdout);
+            if (vsched::Scheduler::AbandonedThreads()) _exit(3);
+            return;
+         }
+         // K_NOTE events are in r.log but not in evs: we produce none, so evs is parallel to r.log
+         std::vector<std::string> pending(T);
+         for (size_t i=0; i<r.steps.size(); i++)
+         {
+            const int w = r.steps[i].taken.tid;
+            const size_t from = r.steps[i].log_pos, to = (i+1 < r.steps.size()) ? r.steps[i+1].log_pos : r.log.size();
+            std::string tag = pending[w].empty() ? "-" : pending[w];
+            pending[w].clear();
+            for (size_t e=from; (e<to)&&(e<evs.size()); e++)
+            {
+               char buf[32];
+               if (evs[e].kind == vsched::K_MUTEX_LOCK) tag = "L";
+               else if (evs[e].kind == vsched::K_ATOMIC_INC) {sprintf(buf, "I%d", evs[e].id); pending[evs[e].tid] = buf;}
+               else if (evs[e].kind == vsched::K_ATOMIC_DEC) {sprintf(buf, "D%d", evs[e].id); pending[evs[e].tid] = buf;}
+            }
+            o << w << ":" << tag << " ";
+         }
+      }
+      // teardown, single-threaded
+      {
+         std::vector<std::string> ops = split(progs[1], ';');
+         for (size_t n=0; n<ops.size(); n++) if (!ops[n].empty()) (void) do_op(ctx[0], ops[n], orc, k, 2000+n);
+      }
+      g_ev = NULL;
+      ideal.collect();
+      o << "| ";
+      dump(o, cs, orc, k, 9999);
+      pool->Sanity();
+      finish_case(cs, orc, k);
+   }
+   g_sched = false;
+   print_case(k, o, orc);
+}
+
 int main()
 {
    (void) GetDefaultObjectForType<Item>();
@@ -625,7 +768,8 @@ int main()
       {
          const std::string hdr = line.substr(0, p), body = line.substr(p+1);
          if ((!hdr.empty())&&(hdr[0] == 'M')) run_stress(k, hdr, body);
-                                         else run_single(k, hdr, body);
+         else if ((!hdr.empty())&&(hdr[0] == 'S')) run_scheduled(k, hdr, body);
+         else run_single(k, hdr, body);
       }
       k++;
    }
